@@ -2,13 +2,15 @@
 
 nibabel/spatialimages.py (SpatialFirstSlicer, as_reoriented), nibabel/orientations.py,
 nibabel/funcs.py (as_closest_canonical), nibabel/nifti1.py (as_reoriented dim_info)."""
+import ast
 import io
 import itertools
+import os
 from fractions import Fraction
 
 import numpy as np
 
-from common import Case, errname
+from common import Case, errname, write_if_changed, LEAN, REPO
 
 PID = 'C05'
 LEAN_TARGETS = ['NibabelModel.Props.C05']
@@ -28,6 +30,12 @@ THEOREMS = [
     'Nb.C05.io_greedy_dominant',
     'Nb.C05.canonical_idempotent',
     'Nb.C05.canonical_second_is_self',
+    'Nb.C05.slicer_triple_ok',
+    'Nb.C05.slicer_rejects_spatial_scalar',
+    'Nb.C05.io_orientation_injective',
+    'Nb.C05.io_orientation_valid',
+    'Nb.C05.canonical_world',
+    'Nb.C05.gen_consts_ok',
 ]
 ASSUMPTIONS = [
     'hand-written Lean model of SpatialFirstSlicer / as_reoriented / orientations.py / as_closest_canonical '
@@ -40,7 +48,14 @@ ASSUMPTIONS = [
     'slice_affine also over any commutative ring (scaleShift_apply_ring)',
     'numpy.linalg.svd inside io_orientation is NOT modelled: the polar factor R (orientations.py:56-71) is '
     'recomputed by the harness with the same NumPy calls and handed to the model as exact scaled integers; '
-    'canonical_idempotent assumes the polar factor of A.P is R.P for a signed permutation P (stated in Props/C05)',
+    'canonical_idempotent assumes the polar factor of A.P is R.P for a signed permutation P (stated in Props/C05); '
+    'the world-position clause of as_closest_canonical (canonical_world) and io_orientation_injective/_valid hold '
+    'for EVERY matrix R, i.e. do not depend on what the SVD returned',
+    'image class, on-disk dtype, byte order, array-vs-proxy, dtype of the ornt array and the sform/qform codes of '
+    'the input header (incl. 0/0, where the header carries no transform) are not inputs of the model: the '
+    'correspondence asserts on every case that the real result does not depend on them',
+    'default axis labels, the identity-orientation literal, the constants of center_trans and the ornt column of '
+    'the dim_info remap are read from the working tree on every run (Generated/C05.lean, gen_consts_ok)',
     'Basic/PySlice is a specification of CPython slice semantics (validated by the C06 check against slice.indices)',
     'fileslice.canonical_slicers is modelled in Model/C06.lean (re-used)',
 ]
@@ -51,11 +66,96 @@ RULE = ('streams: slicer exhaustive single-axis slice triples (start/stop in [-n
         'as_closest_canonical on oblique integer affines and signed-permutation x zoom affines (+singular, '
         'enforce_diag); io_orientation on float affines (signed permutation x power-of-two zooms, oblique, ties, '
         'non-square, zero columns); orientation utilities exhaustively over the 48 (48x48 for ornt_transform) + '
-        'random n-D and malformed. A case is non-trivial unless the slicer is all-full-slices / the orientation is '
+        'random n-D and malformed; *-config streams: the same three operations over image classes (Nifti1/2, pair, '
+        'MGH, SPM, Analyze, array or proxy re-loaded from bytes, byte-swapped), on-disk dtypes, ornt dtypes and all '
+        'combinations of sform/qform code 0/non-0 (with the header fallback affine when both are 0); chain: 2-4 step '
+        'histories of reorient / slice / canonicalise / reorient-to-axis-codes (io_orientation + axcodes2ornt + '
+        'ornt_transform) on one image (oracle only). A case is non-trivial unless the slicer is all-full-slices / the orientation is '
         'the identity; distinct by (op, shape, affine, index/orientation).')
 
-IMG_CLASSES = ('n1', 'n2', 'mgh', 'spm', 'n1p')   # n1p = Nifti1 re-loaded from bytes (array proxy)
-NO_DIM = ('mgh', 'spm')     # classes without dim_info
+IMG_CLASSES = ('n1', 'n2', 'mgh', 'spm', 'n1p', 'n2p', 'mghp', 'pair', 'ana')
+# n1p / n2p / mghp = re-loaded from bytes (array proxy); pair = Nifti1Pair; ana = AnalyzeImage
+NO_DIM = ('mgh', 'spm', 'mghp', 'ana')     # classes without dim_info
+NIFTI = ('n1', 'n2', 'n1p', 'n2p', 'pair')
+OPT_KEYS = ('codes', 'dt', 'swap', 'odt')   # image configuration that must NOT influence the result:
+#   codes = [sform_code, qform_code] of the input header (0/0 = no transform in the header),
+#   dt = on-disk dtype, swap = byte-swapped header (proxies), odt = dtype of the `ornt` array
+
+
+# ------------------------------------------------------------------ constants regenerated from the source
+
+def _func(tree, name, cls=None):
+    body = tree.body
+    if cls is not None:
+        body = next(n for n in tree.body if isinstance(n, ast.ClassDef) and n.name == cls).body
+    return next(n for n in body if isinstance(n, ast.FunctionDef) and n.name == name)
+
+
+def _zip_labels(fn):
+    """the default `labels = list(zip('LPI', 'RAS'))` of ornt2axcodes / axcodes2ornt"""
+    for n in ast.walk(fn):
+        if isinstance(n, ast.Call) and getattr(n.func, 'id', None) == 'zip' and len(n.args) == 2 and \
+                all(isinstance(a, ast.Constant) and isinstance(a.value, str) for a in n.args):
+            return list(zip(n.args[0].value, n.args[1].value))
+    return []
+
+
+def regen():
+    """Generated/C05.lean: the constants the orientation theorems rest on, read from the working tree:
+    default axis labels (both functions), the identity-orientation literal of `as_reoriented`, the
+    constants of `center_trans = -(shape - 1) / 2.0` (inv_ornt_aff), the column of `ornt` used by the
+    dim_info remap.  A shape of the source that cannot be read gives a sentinel that fails
+    `gen_consts_ok`."""
+    def parse(rel):
+        with open(os.path.join(REPO, 'nibabel', rel)) as f:
+            return ast.parse(f.read())
+    lab1, lab2, ident, csub, cdiv, dimcol = [], [], [], -1, -1, 99
+    try:
+        t = parse('orientations.py')
+        lab1 = _zip_labels(_func(t, 'ornt2axcodes'))
+        lab2 = _zip_labels(_func(t, 'axcodes2ornt'))
+        for n in ast.walk(_func(t, 'inv_ornt_aff')):
+            if isinstance(n, ast.Assign) and getattr(n.targets[0], 'id', None) == 'center_trans':
+                v = n.value      # -(shape - 1) / 2.0
+                if isinstance(v, ast.BinOp) and isinstance(v.op, ast.Div) and isinstance(v.right, ast.Constant) and \
+                        isinstance(v.left, ast.UnaryOp) and isinstance(v.left.op, ast.USub) and \
+                        isinstance(v.left.operand, ast.BinOp) and isinstance(v.left.operand.op, ast.Sub) and \
+                        isinstance(v.left.operand.right, ast.Constant) and float(v.right.value).is_integer():
+                    csub, cdiv = int(v.left.operand.right.value), int(v.right.value)
+        t = parse('spatialimages.py')
+        for n in ast.walk(_func(t, 'as_reoriented', 'SpatialImage')):
+            if isinstance(n, ast.Call) and getattr(n.func, 'attr', None) == 'array_equal' and len(n.args) == 2:
+                ident = ast.literal_eval(n.args[1])
+        t = parse('nifti1.py')
+        for n in ast.walk(_func(t, 'as_reoriented', 'Nifti1Pair')):
+            if isinstance(n, ast.Subscript) and getattr(n.value, 'id', None) == 'ornt' and \
+                    isinstance(n.slice, ast.Tuple) and len(n.slice.elts) == 2 and isinstance(n.slice.elts[1], ast.Constant):
+                dimcol = int(n.slice.elts[1].value)
+    except Exception:
+        pass
+
+    def labs(l):
+        return '[' + ', '.join("('%s', '%s')" % (a, b) for a, b in l if len(a) == 1 and len(b) == 1 and a.isalnum() and b.isalnum()) + ']'
+    try:
+        ident_s = '[' + ', '.join('(%d, %d)' % (int(a), int(b)) for a, b in ident) + ']'
+    except Exception:
+        ident_s = '[]'
+    src = ('/-! GENERATED from the nibabel working tree by harness/props/c05.py (regen) — do not edit by hand. -/\n'
+           'namespace Nb.C05.Gen\n'
+           "/-- default `labels` of `ornt2axcodes` (orientations.py) -/\n"
+           f'def labelsOrnt2ax : List (Char × Char) := {labs(lab1)}\n'
+           "/-- default `labels` of `axcodes2ornt` (orientations.py) -/\n"
+           f'def labelsAx2ornt : List (Char × Char) := {labs(lab2)}\n'
+           '/-- the literal `as_reoriented` compares `ornt` with before returning `self` (spatialimages.py) -/\n'
+           f'def identityOrnt : List (Nat × Int) := {ident_s}\n'
+           '/-- `center_trans = -(shape - centerSub) / centerDiv` (inv_ornt_aff) -/\n'
+           f'def centerSub : Int := {csub}\n'
+           f'def centerDiv : Int := {cdiv}\n'
+           '/-- column of `ornt` read by the dim_info remap `int(ornt[orig_dim, col])` (nifti1.py) -/\n'
+           f'def dimInfoCol : Nat := {dimcol}\n'
+           'end Nb.C05.Gen\n')
+    write_if_changed(os.path.join(LEAN, 'NibabelModel', 'Generated', 'C05.lean'), src)
+    return []
 
 
 # ------------------------------------------------------------------ formatting
@@ -152,23 +252,32 @@ def aff44(aff12):
 
 # ------------------------------------------------------------------ cases
 
-def mk_slice(shape, aff12, idx, cls='n1', stream='slicer'):
+def _opts(data, opts):
+    for k in OPT_KEYS:
+        if opts and opts.get(k) is not None:
+            data[k] = opts[k]
+    return tuple((k, str(data[k])) for k in OPT_KEYS if k in data)
+
+
+def mk_slice(shape, aff12, idx, cls='n1', stream='slicer', opts=None):
     line = f'C05 slice {",".join(map(str, shape))} {aff_arg(aff12)} {fmt_idx(idx)}'
     data = {'op': 'slice', 'shape': list(shape), 'aff': [int(v) for v in aff12],
             'idx': [item_to_data(i) for i in idx], 'cls': cls, 'stream': stream}
+    ok = _opts(data, opts)
     trivial = all(isinstance(i, slice) and i == slice(None) for i in idx)
-    key = None if trivial else ('slice', tuple(shape), tuple(aff12), fmt_idx(idx))
+    key = None if trivial else ('slice', tuple(shape), tuple(aff12), fmt_idx(idx), cls, ok)
     return Case(line, data, key, stream)
 
 
-def mk_reor(shape, aff12, ornt, dim, cls='n1', stream='reorient'):
+def mk_reor(shape, aff12, ornt, dim, cls='n1', stream='reorient', opts=None):
     if cls in NO_DIM:
         dim = [None, None, None]
     line = f'C05 reor {",".join(map(str, shape))} {aff_arg(aff12)} {ornt_arg(ornt)} {fmt_dim(dim)}'
     data = {'op': 'reor', 'shape': list(shape), 'aff': [int(v) for v in aff12], 'ornt': ornt, 'dim': list(dim),
             'cls': cls, 'stream': stream}
+    ok = _opts(data, opts)
     trivial = ornt == [[0, 1], [1, 1], [2, 1]]
-    key = None if trivial else ('reor', tuple(shape), tuple(aff12), ornt_arg(ornt), fmt_dim(dim))
+    key = None if trivial else ('reor', tuple(shape), tuple(aff12), ornt_arg(ornt), fmt_dim(dim), cls, ok)
     return Case(line, data, key, stream)
 
 
@@ -199,7 +308,7 @@ def scale_R(R):
     return ints, int(tol)
 
 
-def mk_canon(shape, aff12, dim, enforce, cls='n1', stream='canonical'):
+def mk_canon(shape, aff12, dim, enforce, cls='n1', stream='canonical', opts=None):
     if cls in NO_DIM:
         dim = [None, None, None]
     sc = scale_R(polar_R(aff44(aff12)))
@@ -209,7 +318,19 @@ def mk_canon(shape, aff12, dim, enforce, cls='n1', stream='canonical'):
                 f'{fmt_dim(dim)} {int(enforce)}')
     data = {'op': 'canon', 'shape': list(shape), 'aff': [int(v) for v in aff12], 'dim': list(dim),
             'enforce': int(enforce), 'cls': cls, 'stream': stream}
-    return Case(line, data, ('canon', tuple(shape), tuple(aff12), fmt_dim(dim), int(enforce)), stream)
+    ok = _opts(data, opts)
+    return Case(line, data, ('canon', tuple(shape), tuple(aff12), fmt_dim(dim), int(enforce), cls, ok), stream)
+
+
+def mk_chain(shape, aff12, dim, steps, cls='n1', stream='chain', opts=None):
+    """a history of operations on one image (oracle only): steps = ['r', ornt] | ['s', idx-data] | ['c'] |
+    ['x', axcodes] (reorient to the named axis codes through io_orientation + axcodes2ornt + ornt_transform)"""
+    if cls in NO_DIM:
+        dim = [None, None, None]
+    data = {'op': 'chain', 'shape': list(shape), 'aff': [int(v) for v in aff12], 'dim': list(dim),
+            'steps': steps, 'cls': cls, 'stream': stream}
+    ok = _opts(data, opts)
+    return Case(None, data, ('chain', tuple(shape), tuple(aff12), fmt_dim(dim), repr(steps), cls, ok), stream)
 
 
 def mk_ioor(aff_rows, stream='io_orientation'):
@@ -247,13 +368,17 @@ def mk_util(op, args, stream='ornt-utils'):
 def case_from_data(d):
     op = d['op']
     st = d.get('stream')
+    opts = {k: d[k] for k in OPT_KEYS if k in d}
     if op == 'slice':
         return mk_slice(tuple(d['shape']), d['aff'], tuple(item_from_data(i) for i in d['idx']), d.get('cls', 'n1'),
-                        st or 'slicer')
+                        st or 'slicer', opts)
     if op == 'reor':
-        return mk_reor(tuple(d['shape']), d['aff'], d['ornt'], d['dim'], d.get('cls', 'n1'), st or 'reorient')
+        return mk_reor(tuple(d['shape']), d['aff'], d['ornt'], d['dim'], d.get('cls', 'n1'), st or 'reorient', opts)
     if op == 'canon':
-        return mk_canon(tuple(d['shape']), d['aff'], d['dim'], d['enforce'], d.get('cls', 'n1'), st or 'canonical')
+        return mk_canon(tuple(d['shape']), d['aff'], d['dim'], d['enforce'], d.get('cls', 'n1'), st or 'canonical',
+                        opts)
+    if op == 'chain':
+        return mk_chain(tuple(d['shape']), d['aff'], d['dim'], d['steps'], d.get('cls', 'n1'), st or 'chain', opts)
     if op == 'ioor':
         return mk_ioor(d['aff'], st or 'io_orientation')
     return mk_util(op, {k: v for k, v in d.items() if k not in ('op', 'stream')}, st or 'ornt-utils')
@@ -262,22 +387,53 @@ def case_from_data(d):
 # ------------------------------------------------------------------ implementation side
 
 def make_img(d):
+    """the input image of a case.  Everything except shape / affine / dim_info is CONFIGURATION the result
+    must not depend on: image class, on-disk dtype, header sform/qform codes, byte order, proxy or array"""
     import nibabel as nib
     shape = tuple(d['shape'])
     n = int(np.prod(shape))
-    data = np.arange(n, dtype=np.int32).reshape(shape)
+    dt = np.dtype(d.get('dt', 'i4'))
+    if dt == np.uint8 and n > 256:
+        dt = np.dtype('i2')
+    data = np.arange(n).astype(dt).reshape(shape)
     aff = aff44(d['aff'])
     cls = d.get('cls', 'n1')
-    if cls == 'mgh' and len(shape) <= 4:
-        return nib.MGHImage(data, aff)
-    if cls == 'spm':
-        return nib.Spm2AnalyzeImage(data, aff)
-    klass = nib.Nifti2Image if cls == 'n2' else nib.Nifti1Image
+    if cls in ('mgh', 'mghp') and len(shape) <= 4:
+        if dt.str[1:] not in ('u1', 'i2', 'i4', 'f4'):
+            data = data.astype(np.int32)
+        img = nib.MGHImage(data, aff)
+        if cls == 'mghp':
+            try:       # (MGH cannot serialise a 4-D shape with a trailing axis of length 1: keep the array image)
+                p = nib.MGHImage.from_bytes(img.to_bytes())
+            except Exception:
+                p = None
+            if p is not None and np.array_equal(p.affine, aff) and tuple(p.shape) == shape:
+                img = p
+        return img
+    if cls in ('spm', 'ana', 'mgh', 'mghp'):
+        if dt.str[1:] not in ('u1', 'i2', 'i4', 'f4', 'f8'):
+            data = data.astype(np.int32)
+        return (nib.AnalyzeImage if cls == 'ana' else nib.Spm2AnalyzeImage)(data, aff)
+    klass = {'n2': nib.Nifti2Image, 'n2p': nib.Nifti2Image, 'pair': nib.Nifti1Pair}.get(cls, nib.Nifti1Image)
     img = klass(data, aff)
     if 'dim' in d:
         img.header.set_dim_info(*d['dim'])
-    if cls == 'n1p':
-        img = nib.Nifti1Image.from_bytes(img.to_bytes())
+    codes = d.get('codes')
+    if codes is not None:
+        # header-level setters: the image affine stays `aff`; with sform_code 0 the header's best affine is
+        # the (shear-stripped) qform or, with both 0, the shape/zoom fallback
+        hdr = img.header
+        hdr.set_sform(aff, code=int(codes[0]))
+        try:
+            hdr.set_qform(aff, code=int(codes[1]))
+        except Exception:
+            hdr['qform_code'] = int(codes[1])
+    if d.get('swap') and cls in ('n1p', 'n2p'):
+        img = klass(data, aff, img.header.as_byteswapped())
+    if cls in ('n1p', 'n2p'):
+        p = klass.from_bytes(img.to_bytes())
+        if np.array_equal(p.affine, aff) and tuple(p.shape) == shape:      # (a qform-only header reloads with a rounded affine: keep the array image)
+            img = p
     return img
 
 
@@ -310,7 +466,10 @@ def impl(case):
         img = make_img(d)
         case.extra = {'img': img}
         try:
-            out = img.as_reoriented(ornt_np(d['ornt']))
+            o = ornt_np(d['ornt'])
+            if d.get('odt') and not any(r is None for r in d['ornt']):
+                o = o.astype(d['odt'])
+            out = img.as_reoriented(o)
         except (ort.OrientationError, ValueError, IndexError) as e:
             return errname(e)
         case.extra['out'] = out
@@ -330,6 +489,30 @@ def impl(case):
         dim = get_dim(out) if d.get('cls', 'n1') not in NO_DIM else [None] * 3
         return (f'ok {fmt_ornt(o)} same={int(out is img)} {fmt_list(out.shape)} {fmt_aff(out.affine)} '
                 f'{fmt_list(data_list(out))} {fmt_dim(dim)}')
+    if op == 'chain':
+        import nibabel as nib
+        img = make_img(d)
+        case.extra = {'img': img, 'targets': []}
+        cur = img
+        try:
+            for st in d['steps']:
+                if st[0] == 'r':
+                    cur = cur.as_reoriented(ornt_np(st[1]))
+                elif st[0] == 's':
+                    cur = cur.slicer[tuple(item_from_data(i) for i in st[1])]
+                elif st[0] == 'c':
+                    cur = nib.as_closest_canonical(cur)
+                elif st[0] == 'x':
+                    t = ort.ornt_transform(ort.io_orientation(cur.affine), ort.axcodes2ornt(tuple(st[1])))
+                    cur = cur.as_reoriented(t)
+                    case.extra['targets'].append((st[1], ''.join(ort.aff2axcodes(cur.affine))))
+                else:
+                    raise ValueError(st)
+        except (ort.OrientationError, ValueError, IndexError, TypeError) as e:
+            return errname(e)
+        case.extra['out'] = cur
+        dim = get_dim(cur) if d.get('cls', 'n1') not in NO_DIM else [None] * 3
+        return f'ok {fmt_list(cur.shape)} {fmt_aff(cur.affine)} {fmt_list(data_list(cur))} {fmt_dim(dim)}'
     if op == 'ioor':
         aff = np.array([[float.fromhex(v) for v in row] for row in d['aff']])
         try:
@@ -391,6 +574,11 @@ def check_voxels(old_img, new_img, what):
                     f'{tuple(str(x) for x in w_new)} but its source voxel {tuple(int(x) for x in src)} was at '
                     f'{tuple(str(x) for x in w_old)}')
     return None
+
+
+def is_signed_perm(aff):
+    rzs = np.asarray(aff)[:3, :3]
+    return bool(np.all((rzs != 0).sum(axis=0) == 1) and np.all((rzs != 0).sum(axis=1) == 1))
 
 
 def expected_slicer_success(shape, idx):
@@ -517,6 +705,36 @@ def oracle(case, out):
                     if not np.all(np.diag(U2) > 0):
                         return f'{what}: canonical affine does not point along +R,+A,+S: {np.asarray(new.affine).tolist()}'
         return None
+    if op == 'chain':
+        shape = tuple(d['shape'])
+        what = f'history {d["steps"]} on shape={shape} affine={d["aff"]} cls={d.get("cls")}'
+        if not out.startswith('ok '):
+            return f'{what}: a step raised {out} although every step is valid on its own'
+        img, new = ex['img'], ex['out']
+        bad = check_voxels(img, new, what)
+        if bad:
+            return bad
+        got = np.asanyarray(new.dataobj)
+        if len(set(got.ravel().tolist())) != got.size:
+            return f'{what}: voxels duplicated'
+        only_reor = all(st[0] != 's' for st in d['steps'])
+        if only_reor and got.size != int(np.prod(shape)):
+            return f'{what}: voxels lost (output shape {got.shape})'
+        for want, have in ex.get('targets', []):
+            if is_signed_perm(aff44(d['aff'])) and have != want:
+                return f'{what}: reoriented to axis codes {want} but the result has axis codes {have}'
+        if d.get('cls', 'n1') not in NO_DIM and only_reor and new is not img:
+            oa, na = np.asarray(img.affine), np.asarray(new.affine)
+            for name, od, nd_ in zip(('freq', 'phase', 'slice'), d['dim'], get_dim(new)):
+                if (od is None) != (nd_ is None):
+                    return f'{what}: {name} label {od} became {nd_}'
+                if od is not None and not (np.array_equal(na[:3, nd_], oa[:3, od]) or
+                                           np.array_equal(na[:3, nd_], -oa[:3, od])):
+                    return f'{what}: {name} label moved from voxel axis {od} to {nd_}, a different world direction'
+        if get_dim(img) != (list(d['dim']) if d.get('cls', 'n1') not in NO_DIM else [None] * 3) or \
+                not np.array_equal(img.affine, aff44(d['aff'])):
+            return f'{what}: the original image was modified'
+        return None
     if op == 'ioor':
         aff = np.array([[float.fromhex(v) for v in row] for row in d['aff']])
         q, p = aff.shape[0] - 1, aff.shape[1] - 1
@@ -611,6 +829,8 @@ def signature(case, what):
         return 'slicer:' + ('+'.join(sorted(kinds)) or 'in-range')
     if op == 'reor':
         return 'reorient:' + ('dim_info' if 'label' in what else 'voxels')
+    if op == 'chain':
+        return 'history:' + ('axcodes' if 'axis codes' in what else 'dim_info' if 'label' in what else 'voxels')
     if op == 'canon':
         return 'canonical:' + ('twice' if 'twice' in what or 'still has' in what else 'voxels')
     return 'orientations:' + op
@@ -619,7 +839,7 @@ def signature(case, what):
 def shrink_candidates(case):
     d = case.data
     op = d['op']
-    if op not in ('slice', 'reor', 'canon'):
+    if op not in ('slice', 'reor', 'canon', 'chain'):
         return
     shape = list(d['shape'])
     ident = [1, 0, 0, 0, 0, 1, 0, 0, 0, 0, 1, 0]
@@ -630,6 +850,21 @@ def shrink_candidates(case):
         return case_from_data(dd)
     if d.get('cls', 'n1') != 'n1':
         yield rebuild(cls='n1')
+    for k in OPT_KEYS:
+        if k in d:
+            dd = {kk: v for kk, v in d.items() if kk != k}
+            yield case_from_data(dd)
+    if op == 'chain':
+        for i in range(len(d['steps'])):
+            if len(d['steps']) > 1 and not any(st[0] == 's' for st in d['steps'][i + 1:]):
+                yield rebuild(steps=d['steps'][:i] + d['steps'][i + 1:])
+        if all(st[0] != 's' for st in d['steps']):
+            for ax in range(len(shape)):
+                if shape[ax] > 1:
+                    s2 = list(shape)
+                    s2[ax] -= 1
+                    yield rebuild(shape=s2)
+        return
     if op == 'slice':
         idx = list(d['idx'])
         if len(shape) > 3 and len(idx) <= len(shape) and not any(i in ('ellipsis', 'newaxis') for i in idx):
@@ -756,6 +991,87 @@ def rand_dim(rng):
     return [rng.choice([None, 0, 1, 2]) for _ in range(3)]
 
 
+CODE_PAIRS = [(0, 0), (0, 1), (1, 0), (2, 0), (1, 1), (0, 2), (4, 3), (3, 4), (0, 4), (2, 2)]
+DTS = ['i4', 'i2', 'f4', 'u1', 'f8', '>i2', '>f4', 'i8', 'u2']
+
+
+def base_aff(rng, shape):
+    """the affine a NIfTI/Analyze header WITHOUT sform/qform implies (shape_zoom_affine, x flipped), with
+    even zooms so that it is integral: what `img.affine` is for a file whose codes are both 0"""
+    z = [rng.choice([2, 4]) for _ in range(3)]
+    return [-z[0], 0, 0, z[0] * (shape[0] - 1) // 2, 0, z[1], 0, -(z[1] * (shape[1] - 1) // 2),
+            0, 0, z[2], -(z[2] * (shape[2] - 1) // 2)]
+
+
+def rand_opts(rng, cls, shape=None, force_codes=None):
+    """configuration that must not matter; returns (opts, aff or None)"""
+    o = {}
+    aff = None
+    if cls in NIFTI:
+        r = rng.random()
+        if force_codes is not None:
+            o['codes'] = list(force_codes)
+        elif r < 0.75:
+            o['codes'] = list(rng.choice(CODE_PAIRS))
+        if o.get('codes') == [0, 0] and shape is not None and rng.random() < 0.6:
+            aff = base_aff(rng, shape)
+        if cls in ('n1p', 'n2p') and rng.random() < 0.4:
+            o['swap'] = 1
+    if rng.random() < 0.6:
+        o['dt'] = rng.choice(DTS)
+    if rng.random() < 0.4:
+        o['odt'] = rng.choice(['i8', 'i1', 'f4', 'i4'])
+    return o, aff
+
+
+def rand_cls(rng, shape, newaxis=False):
+    cls = rng.choice(['n1', 'n1', 'n2', 'n1p', 'n1p', 'n2p', 'pair', 'mgh', 'mghp', 'spm', 'ana'])
+    if cls in ('mgh', 'mghp') and (len(shape) > 4 or newaxis):
+        cls = 'spm'
+    return cls
+
+
+def rand_ok_spatial_idx(rng, shape):
+    """an index expression the slicer must accept on `shape`"""
+    sp = [rand_slice(rng, shape[a], True) for a in range(3)]
+    k = rng.choice([1, 2, 3, 3, 3])
+    idx = sp[:k]
+    if k == 3 and len(shape) > 3 and rng.random() < 0.5:
+        idx = idx + [rand_slice(rng, n, True) if rng.random() < 0.7 else rng.randrange(-n, n) for n in shape[3:]]
+    elif rng.random() < 0.2:
+        idx = idx + [Ellipsis]
+    return tuple(idx)
+
+
+def rand_chain(rng, shape):
+    """2-4 steps, each valid on the image it meets; returns steps (JSON-able)"""
+    steps = []
+    cur = np.empty(shape, dtype=np.int8)
+    for _ in range(rng.choice([2, 2, 3, 3, 4])):
+        r = rng.random()
+        if r < 0.35:
+            o = [list(x) for x in rng.choice(ALL48)]
+            steps.append(['r', o])
+            fl = cur
+            cur = np.transpose(fl, list(np.argsort([x[0] for x in o])) + list(range(3, cur.ndim)))
+        elif r < 0.65:
+            idx = rand_ok_spatial_idx(rng, cur.shape)
+            steps.append(['s', [item_to_data(i) for i in idx]])
+            cur = cur[idx]
+        elif r < 0.8:
+            steps.append(['c'])
+            cur = None
+        else:
+            steps.append(['x', ''.join(rng.choice(a) for a in rng.sample(['LR', 'PA', 'IS'], 3))])
+            cur = None
+        if cur is None:      # shape after canonical / axcodes depends on the affine: only shape-agnostic steps follow
+            for _ in range(rng.choice([0, 1])):
+                steps.append(['x', ''.join(rng.choice(a) for a in rng.sample(['LR', 'PA', 'IS'], 3))]
+                             if rng.random() < 0.6 else ['c'])
+            break
+    return steps
+
+
 def fhex(x):
     return float(x).hex()
 
@@ -836,6 +1152,52 @@ def cases(rng, tier):
         if rng.random() < 0.3:
             o[rng.randrange(3)] = None
         out.append(mk_reor(shape, rand_aff(rng), o, rand_dim(rng), 'n1', 'reorient-nan'))
+    # ---------------------------------------------------------------- configuration must not matter:
+    # header sform/qform codes (incl. 0/0 = fallback affine), class, dtype, byte order, proxy, ornt dtype
+    for cp in CODE_PAIRS:                      # every code pair x a flip, a swap+flip and a rotation, 3-D and 4-D
+        for o in ([[0, -1], [1, 1], [2, 1]], [[1, 1], [0, -1], [2, 1]], [[2, -1], [0, 1], [1, -1]]):
+            for shape in ((2, 3, 4), (3, 2, 4, 2)):
+                cls = rng.choice(['n1', 'n1p', 'n2', 'n2p', 'pair'])
+                aff = base_aff(rng, shape) if cp == (0, 0) and rng.random() < 0.5 else rand_aff(rng)
+                opts, _ = rand_opts(rng, cls, shape, force_codes=cp)
+                out.append(mk_reor(shape, aff, [list(r) for r in o], rand_dim(rng), cls, 'reorient-config', opts))
+        shape = rand_shape(rng, cap=120)
+        cls = rng.choice(['n1', 'n1p', 'n2p'])
+        opts, _ = rand_opts(rng, cls, shape, force_codes=cp)
+        out.append(mk_canon(shape, base_aff(rng, shape) if cp == (0, 0) else rand_aff(rng), rand_dim(rng), False, cls,
+                            'canonical-config', opts))
+        opts, _ = rand_opts(rng, cls, shape, force_codes=cp)
+        out.append(mk_slice(shape, base_aff(rng, shape) if cp == (0, 0) else rand_aff(rng),
+                            rand_ok_spatial_idx(rng, shape), cls, 'slicer-config', opts))
+    for _ in range({'quick': 500, 'thorough': 8000, 'search': 2000}[tier]):
+        shape = rand_shape(rng, cap=240)
+        cls = rand_cls(rng, shape)
+        opts, aff = rand_opts(rng, cls, shape)
+        o = [list(r) for r in rng.choice(ALL48)]
+        out.append(mk_reor(shape, aff or rand_aff(rng), o, rand_dim(rng), cls, 'reorient-config', opts))
+    for _ in range({'quick': 300, 'thorough': 5000, 'search': 1000}[tier]):
+        shape = rand_shape(rng, cap=160)
+        cls = rand_cls(rng, shape)
+        opts, aff = rand_opts(rng, cls, shape)
+        out.append(mk_canon(shape, aff or rand_aff(rng), rand_dim(rng), rng.random() < 0.1, cls, 'canonical-config', opts))
+    for _ in range({'quick': 500, 'thorough': 8000, 'search': 2000}[tier]):
+        shape = rand_shape(rng, cap=240)
+        idx = rand_slicer_idx(rng, shape) if rng.random() < 0.5 else rand_ok_spatial_idx(rng, shape)
+        cls = rand_cls(rng, shape, any(i is None for i in idx))
+        opts, aff = rand_opts(rng, cls, shape)
+        out.append(mk_slice(shape, aff or rand_aff(rng), idx, cls, 'slicer-config', opts))
+    # ---------------------------------------------------------------- histories (oracle only): reorient / slice /
+    # canonicalise / reorient-to-axis-codes applied one after the other to the same image
+    for _ in range({'quick': 500, 'thorough': 8000, 'search': 2000}[tier]):
+        shape = rand_shape(rng, cap=160)
+        cls = rng.choice(['n1', 'n1', 'n2', 'n1p', 'n2p', 'pair', 'spm', 'mgh'])
+        steps = rand_chain(rng, shape)
+        if cls == 'mgh' and len(shape) > 4:
+            cls = 'spm'
+        opts, aff = rand_opts(rng, cls, shape)
+        opts.pop('odt', None)
+        kind = rng.choice(['perm', 'perm', 'diag', 'oblique', 'shear'])
+        out.append(mk_chain(shape, aff or rand_aff(rng, kind), rand_dim(rng), steps, cls, 'chain', opts))
     # ---------------------------------------------------------------- as_closest_canonical
     for _ in range({'quick': 1200, 'thorough': 20000, 'search': 4000}[tier]):
         shape = rand_shape(rng, cap=200)
